@@ -356,6 +356,58 @@ def r3_pruning(repo, rep, view, T):
               % ' and '.join(('' if t else 'not ') + x[:70] for x, t in texts), f.loc(n.ast))
 
 
+def _fold_names(e, assigns, depth=4):
+  """List of constant strings denoted by a display / comprehension over module-level literal tables, or None."""
+  if depth < 0:
+    return None
+  if isinstance(e, (ast.List, ast.Tuple)):
+    out = []
+    for x in e.elts:
+      if isinstance(x, ast.Constant) and isinstance(x.value, str):
+        out.append(x.value)
+      elif isinstance(x, ast.Starred):
+        sub = _fold_names(x.value, assigns, depth - 1)
+        if sub is None:
+          return None
+        out += sub
+      else:
+        return None
+    return out
+  if isinstance(e, ast.Name) and e.id in assigns:
+    return _fold_names(assigns[e.id], assigns, depth - 1)
+  if isinstance(e, ast.BinOp) and isinstance(e.op, ast.Add):
+    l, r = _fold_names(e.left, assigns, depth - 1), _fold_names(e.right, assigns, depth - 1)
+    return None if l is None or r is None else l + r
+  if isinstance(e, ast.Call) and isinstance(e.func, ast.Name) and e.func.id in ('list', 'tuple') and len(e.args) == 1:
+    return _fold_names(e.args[0], assigns, depth - 1)
+  if isinstance(e, (ast.ListComp, ast.GeneratorExp)) and len(e.generators) == 1 and not e.generators[0].ifs:
+    gen = e.generators[0]
+    table = assigns.get(gen.iter.id) if isinstance(gen.iter, ast.Name) else gen.iter
+    if not isinstance(table, (ast.List, ast.Tuple)):
+      return None
+    out = []
+    for row in table.elts:
+      # bind the target (a name or a tuple of names) to the row and evaluate the element when it is one of the names
+      binds = {}
+      if isinstance(gen.target, ast.Name):
+        binds[gen.target.id] = row
+      elif isinstance(gen.target, (ast.Tuple, ast.List)) and isinstance(row, (ast.Tuple, ast.List)) and len(row.elts) == len(gen.target.elts):
+        binds = {t.id: v for t, v in zip(gen.target.elts, row.elts) if isinstance(t, ast.Name)}
+      v = None
+      if isinstance(e.elt, ast.Name):
+        v = binds.get(e.elt.id)
+      elif isinstance(e.elt, ast.Subscript) and isinstance(e.elt.value, ast.Name) and isinstance(binds.get(e.elt.value.id), (ast.Tuple, ast.List)) \
+          and isinstance(e.elt.slice, ast.Constant) and isinstance(e.elt.slice.value, int):
+        v = binds[e.elt.value.id].elts[e.elt.slice.value]
+      elif isinstance(e.elt, ast.Attribute) and isinstance(e.elt.value, ast.Name):
+        v = None
+      if not (isinstance(v, ast.Constant) and isinstance(v.value, str)):
+        return None
+      out.append(v.value)
+    return out
+  return None
+
+
 def r5_ordering(repo, rep):
   mod = repo.module('tbrmmscore')
   sc = mod.assigns.get('Scoring')
@@ -366,7 +418,20 @@ def r5_ordering(repo, rep):
       fields = [au.const(x)[1] for x in a.elts]
     elif isinstance(a, ast.Constant) and isinstance(a.value, str):
       fields = a.value.replace(',', ' ').split()
-  rep.check(fields == DOC_SCORE, 'R5/ordering', 'Scoring fields are in the documented lexicographic order', 'tbrmmscore.Scoring', 'Scoring%s' % (fields,),
+  if fields is None and isinstance(sc, ast.Call) and norm(sc.func).endswith('namedtuple') and len(sc.args) >= 2:
+    # field names computed from a table: folded when the table is a module-level literal
+    from mmsa import regexes
+    a = sc.args[1]
+    try:
+      folded = _fold_names(a, mod.assigns)
+    except Exception:
+      folded = None
+    fields = folded
+  if fields is None:
+    rep.undecided('R5/ordering', 'Scoring fields', 'the field list of Scoring is not a literal (%s)' % (norm(sc.args[1])[:60] if isinstance(sc, ast.Call) and len(sc.args) >= 2 else 'Scoring is not a namedtuple call'),
+                  '%s:%d' % (mod.relpath, getattr(sc, 'lineno', 0)))
+  else:
+   rep.check(fields == DOC_SCORE, 'R5/ordering', 'Scoring fields are in the documented lexicographic order', 'tbrmmscore.Scoring', 'Scoring%s' % (fields,),
             'the Scoring tuple is %s but the documented order is %s: designs are ranked by a different lexicographic order' % (fields, DOC_SCORE),
             '%s:%d' % (mod.relpath, getattr(sc, 'lineno', 0)))
   cls = repo.cls('tbrmmscore.TBRMMScore')
